@@ -1,5 +1,5 @@
 import CollectionsC.Proofs.TreeTableSpec
-import CollectionsC.Proofs.TreeSet
+import CollectionsC.Proofs.TreeTableSession
 import CollectionsC.Driver.TreeTable
 /-! # C03 — CC_TreeTable / CC_TreeSet are exact ordered maps / sets
 
@@ -7,128 +7,136 @@ Statements and closing proofs only (helpers: `Proofs/TreeTable*.lean`).  The con
 `CC.TreeTable` (`Model/TreeTable.lean`) is the red-black tree of `src/cc_treetable.c`, node for node;
 the abstract spec `CC.Spec.OrdMap` is the list of entries in strictly ascending key order.
 Quantifiers: **every** comparator that is a total order (`Spec.TotalOrder`), every key and value,
-every finite history, every allocator schedule, every state satisfying the invariant (BST order,
-red-black rules, size field = number of nodes).
+every finite history, every allocator schedule, both allocator triples (`new_conf` / `new`), every
+state satisfying the invariant (BST order, red-black rules, size field = number of nodes).
 
 Preconditions that appear as hypotheses:
 * `TotalOrder cmp` — the property is about total-order comparators;
 * `t.Inv cmp` — established by the constructor (`new_inv`) and preserved by every call;
-* `t.size + 2 ≤ m.live` — the ledger holds at least the blocks the table owns (nodes, sentinel,
-  header); established by the constructor, preserved by every call. -/
+* `TreeTable.Owns t m` — ledger consistency: the ledger of the table's allocator triple holds at least
+  the blocks the table owns (nodes, sentinel, header); established by the constructor, preserved by
+  every call (`StepOK.owns`), every history and every iterator program.
+
+**Model boundary.**  The model is the algebraic tree the pointer structure spans: there are no parent
+pointers, node identity is the key, and what the C code computes by walking pointers
+(`get_successor_node` / `get_predecessor_node`, `tree_min` + successor loops in `foreach_*`,
+`contains_value`, the iterator) is defined on the in-order list of the tree.  Hence the statements about
+`get_greater_than` / `get_lesser_than`, `foreach`, `contains_value` and the iterator say what these
+functions return *given that the successor walk is the in-order successor* (names ending in `_model`
+below); that the pointer code with its parent links and the sentinel's scratch `parent` field really
+performs this walk is checked on the real heap by the correspondence harness (tree dump compared
+node by node after every call, parent-pointer walker, iterator pointers printed as keys), not here.
+`cc_treeset_remove` / `cc_treeset_iter_remove` store the table's value (the dummy) in `*out`; the
+model keeps that (`Spec.OrdSet.apiOut`), it is an observation outside the wording of C03. -/
 namespace CC.Properties.C03
 open CC CC.Spec CC.Spec.OrdMap
 
 variable {cmp : Nat → Nat → Int}
 
 /-- **One call.**  Same status / out-value / callback sequence as the ideal ordered map, the
-abstraction commutes, the invariant is preserved, a rejected call leaves the table (and, unless an
-allocation was refused, the ledger) untouched, no fault, balanced ledger, comparator budget. -/
+abstraction commutes, the invariant and ledger consistency are preserved, a rejected call leaves the
+table (and, unless an allocation was refused, the ledger) untouched, no fault, balanced ledger,
+comparator budget. -/
 theorem step_refines (ho : TotalOrder cmp) (t : TreeTable) (h : t.Inv cmp) (op : Op) (m : Mem)
-    (hm : t.size + 2 ≤ m.live) : TreeTable.StepOK cmp t op m :=
+    (hm : TreeTable.Owns t m) : TreeTable.StepOK cmp t op m :=
   TreeTable.step_ok ho h op m hm
 
 /-- what the ideal map is told about the allocator: the request of this call is refused iff the
-schedule of the call starts with a refusal -/
+schedule of the call starts with a refusal (table on the configured triple) -/
 def refusedOf (sched : List Bool) : Bool := sched.head? == some true
 
-theorem begin_alloc (m : Mem) (sched : List Bool) : (!(m.begin sched).alloc.1) = refusedOf sched := by
-  unfold Mem.begin Mem.alloc refusedOf
-  rcases sched with _ | ⟨_ | _, rest⟩ <;> rfl
+theorem refusedOfT_conf (sched : List Bool) : TreeTable.refusedOfT .conf sched = refusedOf sched := rfl
+/-- the C library allocator is never refused -/
+theorem refusedOfT_libc (sched : List Bool) : TreeTable.refusedOfT .libc sched = false := rfl
 
 /-- **All histories.**  From any state satisfying the invariant, any history of table calls, each
 under any allocator schedule, returns exactly what the ideal ordered map returns and ends in a state
-whose in-order content is the ideal map's; invariant, fault-freedom and the ledger balance hold at the
-end, and every call stayed within `2·⌊log₂(n+1)⌋ + 2` comparator calls (`n` keys before the call). -/
+whose in-order content is the ideal map's; invariant, fault-freedom, the ledger balance and ledger
+consistency hold at the end, and every call stayed within `2·⌊log₂(n+1)⌋ + 2` comparator calls
+(`n` keys before the call). -/
 theorem history_refines (ho : TotalOrder cmp) (ops : List (Op × List Bool)) (t : TreeTable)
-    (h : t.Inv cmp) (m : Mem) (hm : t.size + 2 ≤ m.live) :
-    (t.run cmp ops m).1 = (OrdMap.run cmp t.abs (ops.map fun p => (p.1, refusedOf p.2))).1 ∧
-    (t.run cmp ops m).2.2.1.abs = (OrdMap.run cmp t.abs (ops.map fun p => (p.1, refusedOf p.2))).2 ∧
+    (h : t.Inv cmp) (m : Mem) (hm : TreeTable.Owns t m) :
+    (t.run cmp ops m).1 = (OrdMap.run cmp t.abs (ops.map fun p => (p.1, TreeTable.refusedOfT t.triple p.2))).1 ∧
+    (t.run cmp ops m).2.2.1.abs = (OrdMap.run cmp t.abs (ops.map fun p => (p.1, TreeTable.refusedOfT t.triple p.2))).2 ∧
     (t.run cmp ops m).2.2.1.Inv cmp ∧
     (t.run cmp ops m).2.2.2.fault = m.fault ∧
-    (t.run cmp ops m).2.2.2.live + t.size = m.live + (t.run cmp ops m).2.2.1.size ∧
+    TreeTable.liveOf (t.run cmp ops m).2.2.2 t.triple + t.size =
+      TreeTable.liveOf m t.triple + (t.run cmp ops m).2.2.1.size ∧
+    TreeTable.Owns (t.run cmp ops m).2.2.1 (t.run cmp ops m).2.2.2 ∧
     ∀ p ∈ (t.run cmp ops m).2.1, p.2 ≤ 2 * Nat.log2 (p.1 + 1) + 2 := by
-  induction ops generalizing t m with
-  | nil => exact ⟨rfl, rfl, h, rfl, rfl, fun _ hp => by simp [TreeTable.run] at hp⟩
-  | cons x ops ih =>
-    obtain ⟨op, sched⟩ := x
-    have hm' : t.size + 2 ≤ (m.begin sched).live := hm
-    have s := step_refines ho t h op (m.begin sched) hm'
-    have hl := s.ledger
-    have ih' := ih (t.step cmp op (m.begin sched)).2.1 s.inv (t.step cmp op (m.begin sched)).2.2.1
-      (by have : (m.begin sched).live = m.live := rfl; omega)
-    obtain ⟨a, b, c, d, e, f⟩ := ih'
-    rw [s.abs, begin_alloc] at a b
-    simp only [TreeTable.run, OrdMap.run, List.map_cons]
-    refine ⟨by rw [a, s.out, begin_alloc], b, c, by rw [d, s.nofault]; rfl, ?_, ?_⟩
-    · have : (m.begin sched).live = m.live := rfl
-      omega
-    · intro p hp
-      rcases List.mem_cons.1 hp with rfl | hp
-      · exact s.cmps
-      · exact f p hp
+  obtain ⟨a, b, c, d, e, _, g, i⟩ := TreeTable.run_ok ho ops h m hm
+  exact ⟨a, b, c, d, e, g, i⟩
 
-/-- the constructor establishes the invariant, the empty content and the ledger precondition; a
-refused request yields no object and an unchanged ledger -/
-theorem new_inv (m0 : Mem) :
-    (∀ t m1, TreeTable.new m0 = (.ok, some t, m1) →
-        t.Inv cmp ∧ t.abs = [] ∧ m1.live = m0.live + 2 ∧ m1.fault = m0.fault) ∧
-    ((TreeTable.new m0).1 = .ok ∨ (TreeTable.new m0).1 = .errAlloc) ∧
-    ((TreeTable.new m0).1 = .errAlloc → (TreeTable.new m0).2.1 = none ∧
-        (TreeTable.new m0).2.2.live = m0.live ∧ (TreeTable.new m0).2.2.fault = m0.fault) := by
-  unfold TreeTable.new; dsimp only
-  cases h1 : m0.alloc.1 <;> simp only [Bool.not_false, Bool.not_true, if_true]
-  · have := Mem.alloc_fst_false m0 h1
-    simp [this]
-  · have e1 := Mem.alloc_fst_true m0 h1
-    cases h2 : m0.alloc.2.alloc.1 <;> simp only [Bool.not_false, Bool.not_true, if_true]
-    · have e2 := Mem.alloc_fst_false m0.alloc.2 h2
-      simp [Mem.free, e1, e2]
-    · have e2 := Mem.alloc_fst_true m0.alloc.2 h2
-      simp only [Bool.false_eq_true, if_false, Prod.mk.injEq, Option.some.injEq, true_and, and_imp,
-        reduceCtorEq, or_false, false_implies, and_true]
-      intro t m1 ht hm; subst ht; subst hm
-      exact ⟨⟨List.Pairwise.nil, ⟨trivial, rfl⟩, rfl⟩, rfl, by omega, by rw [e2.2.1, e1.2.1]⟩
+/-- the constructor (on the caller's triple `new_conf`, or on the C library's `new`) establishes the
+invariant, the empty content and ledger consistency; a refused request yields no object and an
+unchanged ledger -/
+theorem new_inv (tr : Triple) (m0 : Mem) :
+    (∀ t m1, TreeTable.newT tr m0 = (.ok, some t, m1) →
+        t.Inv cmp ∧ t.abs = [] ∧ t.triple = tr ∧ TreeTable.liveOf m1 tr = TreeTable.liveOf m0 tr + 2 ∧
+        m1.fault = m0.fault ∧ TreeTable.Owns t m1) ∧
+    ((TreeTable.newT tr m0).1 = .ok ∨ (TreeTable.newT tr m0).1 = .errAlloc) ∧
+    ((TreeTable.newT tr m0).1 = .errAlloc → (TreeTable.newT tr m0).2.1 = none ∧
+        TreeTable.liveOf (TreeTable.newT tr m0).2.2 tr = TreeTable.liveOf m0 tr ∧
+        (TreeTable.newT tr m0).2.2.fault = m0.fault) :=
+  TreeTable.newT_spec tr m0
 
 /-- **C03 from the constructor.**  Every history on a freshly constructed table behaves like the
 ideal ordered map that starts empty. -/
-theorem new_history_refines (ho : TotalOrder cmp) (m0 m1 : Mem) (t0 : TreeTable)
-    (hnew : TreeTable.new m0 = (.ok, some t0, m1)) (ops : List (Op × List Bool)) :
-    (t0.run cmp ops m1).1 = (OrdMap.run cmp [] (ops.map fun p => (p.1, refusedOf p.2))).1 ∧
-    (t0.run cmp ops m1).2.2.1.abs = (OrdMap.run cmp [] (ops.map fun p => (p.1, refusedOf p.2))).2 ∧
+theorem new_history_refines (ho : TotalOrder cmp) (tr : Triple) (m0 m1 : Mem) (t0 : TreeTable)
+    (hnew : TreeTable.newT tr m0 = (.ok, some t0, m1)) (ops : List (Op × List Bool)) :
+    (t0.run cmp ops m1).1 = (OrdMap.run cmp [] (ops.map fun p => (p.1, TreeTable.refusedOfT tr p.2))).1 ∧
+    (t0.run cmp ops m1).2.2.1.abs = (OrdMap.run cmp [] (ops.map fun p => (p.1, TreeTable.refusedOfT tr p.2))).2 ∧
     (t0.run cmp ops m1).2.2.1.Inv cmp ∧ (t0.run cmp ops m1).2.2.2.fault = m1.fault := by
-  obtain ⟨hi, ha, hl, _⟩ := (new_inv (cmp := cmp) m0).1 t0 m1 hnew
-  have hs : t0.size = 0 := by rw [hi.size_eq, ha]; rfl
-  have := history_refines ho ops t0 hi m1 (by omega)
-  rw [ha] at this
+  obtain ⟨hi, ha, ht, _, _, ho'⟩ := (new_inv (cmp := cmp) tr m0).1 t0 m1 hnew
+  have := history_refines ho ops t0 hi m1 ho'
+  rw [ha, ht] at this
   exact ⟨this.1, this.2.1, this.2.2.1, this.2.2.2.1⟩
 
-/-- `destroy` releases exactly the blocks the table owns (every node, the sentinel, the header):
-together with `new_inv` and the ledger clause of `history_refines`, a session
+/-- `destroy` releases exactly the blocks the table owns (every node, the sentinel, the header), on the
+table's own triple: together with `new_inv` and the ledger clause of `history_refines`, a session
 `new; …; destroy` ends with the ledger it started with (C06 tree part) -/
-theorem destroy_ledger (t : TreeTable) (h : t.Inv cmp) (m : Mem) (hm : t.size + 2 ≤ m.live) :
-    (t.destroy m).live + t.size + 2 = m.live ∧ (t.destroy m).fault = m.fault := by
-  have a := TreeTable.freeN_spec t.root.size m (by rw [← h.2.2]; omega)
-  have b := TreeTable.free_spec (TreeTable.freeN m t.root.size) (by rw [a.1, ← h.2.2]; omega)
-  have c := TreeTable.free_spec (TreeTable.freeN m t.root.size).free (by rw [b.1, a.1, ← h.2.2]; omega)
-  unfold TreeTable.destroy
-  rw [c.1, c.2, b.1, b.2, a.1, a.2, ← h.2.2]
-  exact ⟨by omega, rfl⟩
+theorem destroy_ledger (t : TreeTable) (h : t.Inv cmp) (m : Mem) (hm : TreeTable.Owns t m) :
+    TreeTable.liveOf (t.destroy m) t.triple + t.size + 2 = TreeTable.liveOf m t.triple ∧
+    (t.destroy m).fault = m.fault :=
+  TreeTable.destroy_spec h m hm
 
 /-! ## Iterator (`iter_init`, `iter_next`, `iter_remove`) -/
 
-/-- **Iterator programs.**  A fresh iterator driven by any program of `next` / `remove` calls yields
-the statuses, keys and values of the ideal cursor, removes exactly the entries the cursor removes,
-and keeps the invariant (C07 tree part: the pre-computed successor survives the deletion).  The
-fault flag stays clear when `remove` is only called after a successful `next` (`IterValid`). -/
-theorem iter_refines (ho : TotalOrder cmp) (t : TreeTable) (h : t.Inv cmp) (prog : List IterOp) (m : Mem)
-    (hm : t.size + 2 ≤ m.live) :
+/-- **Iterator programs** (`_model`: the iterator's node pointers are keys and its successor walk is
+the in-order successor, see the header).  A fresh iterator driven by any program of `next` / `remove`
+calls yields the statuses, keys and values of the ideal cursor, removes exactly the entries the cursor
+removes, and keeps the invariant.  The fault flag stays clear when `remove` is only called after a
+successful `next` (`IterValid`) — for other programs the C code is outside its documented contract and
+the output clauses describe the model only. -/
+theorem iter_refines_model (ho : TotalOrder cmp) (t : TreeTable) (h : t.Inv cmp) (prog : List IterOp) (m : Mem)
+    (hm : TreeTable.Owns t m) :
     (t.iterRun cmp t.iterInit prog m).1 = ((Cursor.init t.abs).run t.abs prog).1 ∧
     (t.iterRun cmp t.iterInit prog m).2.1.abs = ((Cursor.init t.abs).run t.abs prog).2.2 ∧
     (t.iterRun cmp t.iterInit prog m).2.1.Inv cmp ∧
     (TreeTable.IterValid cmp t t.iterInit prog m → (t.iterRun cmp t.iterInit prog m).2.2.2.fault = m.fault) ∧
-    (t.iterRun cmp t.iterInit prog m).2.2.2.live + t.size = m.live + (t.iterRun cmp t.iterInit prog m).2.1.size := by
+    TreeTable.liveOf (t.iterRun cmp t.iterInit prog m).2.2.2 t.triple + t.size =
+      TreeTable.liveOf m t.triple + (t.iterRun cmp t.iterInit prog m).2.1.size ∧
+    TreeTable.Owns (t.iterRun cmp t.iterInit prog m).2.1 (t.iterRun cmp t.iterInit prog m).2.2.2 := by
   have := TreeTable.iterRun_sim ho prog h (TreeTable.iterInit_rel t) m hm
-  exact ⟨this.1, this.2.1, this.2.2.1, this.2.2.2.2.1, this.2.2.2.2.2⟩
+  exact ⟨this.1, this.2.1, this.2.2.1, this.2.2.2.2.1, this.2.2.2.2.2.1,
+    TreeTable.iterRun_owns ho prog h (TreeTable.iterInit_rel t) m hm⟩
+
+/-- **Sessions** (`_model` for their iterator segments): any interleaving of histories of table calls
+with iterator sessions — "removals by key, of the first entry, of the last entry, all, or through an
+iterator" in one history — returns what the ideal map and the ideal cursor return and ends in the ideal
+content, with invariant, ledger balance and ledger consistency; no fault when every iterator session
+respects the precondition of `iter_remove`. -/
+theorem session_refines_model (ho : TotalOrder cmp) (segs : List Segment) (t : TreeTable) (h : t.Inv cmp)
+    (m : Mem) (hm : TreeTable.Owns t m) :
+    (t.runSession cmp segs m).1 = (OrdMap.runSession cmp (TreeTable.refusedOfT t.triple) t.abs segs).1 ∧
+    (t.runSession cmp segs m).2.1.abs = (OrdMap.runSession cmp (TreeTable.refusedOfT t.triple) t.abs segs).2 ∧
+    (t.runSession cmp segs m).2.1.Inv cmp ∧
+    (TreeTable.SessionValid cmp t segs m → (t.runSession cmp segs m).2.2.fault = m.fault) ∧
+    TreeTable.liveOf (t.runSession cmp segs m).2.2 t.triple + t.size =
+      TreeTable.liveOf m t.triple + (t.runSession cmp segs m).2.1.size ∧
+    TreeTable.Owns (t.runSession cmp segs m).2.1 (t.runSession cmp segs m).2.2 := by
+  obtain ⟨a, b, c, d, e, _, g⟩ := TreeTable.session_ok ho segs h m hm
+  exact ⟨a, b, c, d, e, g⟩
 
 /-- the ideal cursor enumerates the map: `n+1` calls of `next` on a map of `n` entries yield every
 entry once, in ascending key order, and then `CC_ITER_END` -/
@@ -151,6 +159,13 @@ theorem cursor_enumerates (ho : TotalOrder cmp) (m : OrdMap) (hs : Sorted cmp m)
     simp only [List.length_cons, List.replicate_succ, Cursor.run, Cursor.step, Cursor.next, keys,
       List.map_cons, hl, Option.getD_some, Option.map_some, List.cons_append, List.cons.injEq, true_and]
     exact this
+
+/-- whatever an ideal iteration removes in between, every entry it hands out is an entry of the map it
+started on, with its real value (the default value in `Cursor.next` / `valueAt` is never used) -/
+theorem cursor_yields_original_entries (ho : TotalOrder cmp) (m : OrdMap) (hs : Sorted cmp m) (prog : List IterOp) :
+    ∀ p ∈ prog.zip ((Cursor.init m).run m prog).1, p.1 = .next → ∀ k, p.2.val = some k →
+      ∃ v, (k, v) ∈ m ∧ p.2.log = [v] :=
+  cursor_run_yields (cursorOk_init ho hs) prog
 
 /-! ## The ideal ordered map in the words of the property -/
 
@@ -220,11 +235,12 @@ theorem spec_remove_empty (k : Nat) :
 /-- a refused node allocation is atomic: status `CC_ERR_ALLOC`, the table is physically unchanged,
 and the ledger holds exactly the blocks it held before -/
 theorem add_atomic (ho : TotalOrder cmp) (t : TreeTable) (h : t.Inv cmp) (k v : Nat) (m : Mem)
-    (hk : contains t.abs k = false) (hr : m.alloc.1 = false) :
-    (t.add cmp k v m).1 = .errAlloc ∧ (t.add cmp k v m).2.1 = t ∧ (t.add cmp k v m).2.2.1.live = m.live ∧
+    (hk : contains t.abs k = false) (hr : (m.allocT t.triple).1 = false) :
+    (t.add cmp k v m).1 = .errAlloc ∧ (t.add cmp k v m).2.1 = t ∧
+    TreeTable.liveOf (t.add cmp k v m).2.2.1 t.triple = TreeTable.liveOf m t.triple ∧
     (t.add cmp k v m).2.2.1.fault = m.fault := by
   obtain ⟨a, _, _, d, e, f, _⟩ := TreeTable.add_spec ho h k v m
-  have hx : (!contains t.abs k && !m.alloc.1) = true := by rw [hk, hr]; rfl
+  have hx : (!contains t.abs k && !(m.allocT t.triple).1) = true := by rw [hk, hr]; rfl
   rw [hx] at a
   have := d hx
   rw [this] at f
@@ -239,81 +255,58 @@ theorem C08_continue (m : OrdMap) (ops₁ ops₂ : List (Op × Bool)) (op : Op)
   rw [step_refused_inert _ op true hf]
 
 /-- C16: every call that reports an error other than `CC_ERR_ALLOC` leaves the whole state —
-tree, size field, ledger — unchanged -/
-theorem rejected_inert (ho : TotalOrder cmp) (t : TreeTable) (h : t.Inv cmp) (op : Op) (m : Mem)
-    (hm : t.size + 2 ≤ m.live) (st : Stat) (hst : (t.step cmp op m).1.st = some st)
+tree, size field, ledger — unchanged (no ledger hypothesis: no rejected path calls the allocator) -/
+theorem rejected_inert (t : TreeTable) (h : t.Inv cmp) (op : Op) (m : Mem)
+    (st : Stat) (hst : (t.step cmp op m).1.st = some st)
     (h1 : st ≠ .ok) (h2 : st ≠ .errAlloc) :
     (t.step cmp op m).2.1 = t ∧ (t.step cmp op m).2.2.1 = m :=
-  let s := step_refines ho t h op m hm
-  ⟨(s.inert st hst h1).1, (s.inert st hst h1).2 h2⟩
+  TreeTable.step_inert h op m st hst h1 h2
 
 /-! ## CC_TreeSet -/
 
-/-- **One call of the set API**: status, callback sequence and out-value of the ideal ordered set
-(the out-value of `cc_treeset_remove` is the dummy the table stores, see `TreeSet.StepOK.val`), the
-abstraction commutes, the invariant (the table's, and "all values are the dummy") is preserved, no
-fault, balanced ledger, comparator budget. -/
+/-- **One call of the set API**: status, out-value and callback sequence of the ideal ordered set as the
+API hands them back (`apiOut`), the abstraction commutes, the invariant (the table's, "all values are
+the dummy", "the table uses the set's triple") is preserved, no fault, balanced ledger, comparator
+budget. -/
 theorem set_step_refines (ho : TotalOrder cmp) (s : TreeSet) (h : s.Inv cmp) (op : OrdSet.Op) (m : Mem)
-    (hm : s.t.size + 2 ≤ m.live) : TreeSet.StepOK cmp s op m :=
+    (hm : TreeTable.Owns s.t m) : TreeSet.StepOK cmp s op m :=
   TreeSet.step_ok ho h op m hm
 
-/-- **All histories of set calls**: statuses and callback sequences are those of the ideal ordered
-set, the final content is the ideal set's, invariant / fault-freedom / ledger balance / comparator
-budget as for the table. -/
+/-- **All histories of set calls**: statuses, out-values (`contains`, `size`, `first`, `last`,
+`greater_than`, `lesser_than` results) and callback sequences are those of the ideal ordered set, the
+final content is the ideal set's, invariant / fault-freedom / ledger balance / comparator budget as
+for the table. -/
 theorem set_history_refines (ho : TotalOrder cmp) (ops : List (OrdSet.Op × List Bool)) (s : TreeSet)
-    (h : s.Inv cmp) (m : Mem) (hm : s.t.size + 2 ≤ m.live) :
-    (s.run cmp ops m).1.map (fun o => (o.st, o.log)) =
-      (OrdSet.run cmp s.t.abs (ops.map fun p => (p.1, refusedOf p.2))).1.map (fun o => (o.st, o.log)) ∧
-    (s.run cmp ops m).2.2.1.t.abs = (OrdSet.run cmp s.t.abs (ops.map fun p => (p.1, refusedOf p.2))).2 ∧
+    (h : s.Inv cmp) (m : Mem) (hm : TreeTable.Owns s.t m) :
+    (s.run cmp ops m).1 = TreeSet.apiOuts (ops.map (·.1))
+      (OrdSet.run cmp s.t.abs (ops.map fun p => (p.1, TreeTable.refusedOfT s.triple p.2))).1 ∧
+    (s.run cmp ops m).2.2.1.t.abs = (OrdSet.run cmp s.t.abs (ops.map fun p => (p.1, TreeTable.refusedOfT s.triple p.2))).2 ∧
     (s.run cmp ops m).2.2.1.Inv cmp ∧
     (s.run cmp ops m).2.2.2.fault = m.fault ∧
-    (s.run cmp ops m).2.2.2.live + s.t.size = m.live + (s.run cmp ops m).2.2.1.t.size ∧
+    TreeTable.liveOf (s.run cmp ops m).2.2.2 s.triple + s.t.size =
+      TreeTable.liveOf m s.triple + (s.run cmp ops m).2.2.1.t.size ∧
+    TreeTable.Owns (s.run cmp ops m).2.2.1.t (s.run cmp ops m).2.2.2 ∧
     ∀ p ∈ (s.run cmp ops m).2.1, p.2 ≤ 2 * Nat.log2 (p.1 + 1) + 2 := by
-  induction ops generalizing s m with
-  | nil => exact ⟨rfl, rfl, h, rfl, rfl, fun _ hp => by simp [TreeSet.run] at hp⟩
-  | cons x ops ih =>
-    obtain ⟨op, sched⟩ := x
-    have hm' : s.t.size + 2 ≤ (m.begin sched).live := hm
-    have k := set_step_refines ho s h op (m.begin sched) hm'
-    have hl := k.ledger
-    have hlive : (m.begin sched).live = m.live := rfl
-    have ih' := ih (s.step cmp op (m.begin sched)).2.1 k.inv (s.step cmp op (m.begin sched)).2.2.1 (by omega)
-    obtain ⟨a, b, c, d, e, f⟩ := ih'
-    rw [k.abs, begin_alloc] at a b
-    simp only [TreeSet.run, OrdSet.run, List.map_cons]
-    refine ⟨?_, b, c, by rw [d, k.nofault]; rfl, by omega, ?_⟩
-    · rw [a, k.st, k.log, begin_alloc]
-    · intro p hp
-      rcases List.mem_cons.1 hp with rfl | hp
-      · exact k.cmps
-      · exact f p hp
+  obtain ⟨a, b, c, d, e, _, g, i⟩ := TreeSet.run_ok ho ops h m hm
+  exact ⟨a, b, c, d, e, g, i⟩
 
-/-- the set constructor: three blocks (set header, table header, sentinel), all released again when
-any of the requests is refused -/
-theorem set_new_inv (m0 : Mem) :
-    (∀ s m1, TreeSet.new m0 = (.ok, some s, m1) →
-        s.Inv cmp ∧ s.t.abs = [] ∧ m1.live = m0.live + 3 ∧ m1.fault = m0.fault) ∧
-    ((TreeSet.new m0).1 = .ok ∨ (TreeSet.new m0).1 = .errAlloc) ∧
-    ((TreeSet.new m0).1 = .errAlloc → (TreeSet.new m0).2.1 = none ∧
-        (TreeSet.new m0).2.2.live = m0.live ∧ (TreeSet.new m0).2.2.fault = m0.fault) := by
-  unfold TreeSet.new TreeTable.new; dsimp only
-  cases h1 : m0.alloc.1 <;> simp only [Bool.not_false, Bool.not_true, if_true]
-  · have := Mem.alloc_fst_false m0 h1
-    simp [this]
-  · have e1 := Mem.alloc_fst_true m0 h1
-    cases h2 : m0.alloc.2.alloc.1 <;> simp only [Bool.not_false, Bool.not_true, if_true]
-    · have e2 := Mem.alloc_fst_false m0.alloc.2 h2
-      simp [Mem.free, e1, e2]
-    · have e2 := Mem.alloc_fst_true m0.alloc.2 h2
-      cases h3 : m0.alloc.2.alloc.2.alloc.1 <;> simp only [Bool.not_false, Bool.not_true, if_true]
-      · have e3 := Mem.alloc_fst_false m0.alloc.2.alloc.2 h3
-        simp [Mem.free, e1, e2, e3]
-      · have e3 := Mem.alloc_fst_true m0.alloc.2.alloc.2 h3
-        simp only [Bool.false_eq_true, if_false, Prod.mk.injEq, Option.some.injEq, true_and, and_imp,
-          reduceCtorEq, or_false, false_implies, and_true]
-        intro s m1 hs hm; subst hs; subst hm
-        exact ⟨⟨⟨List.Pairwise.nil, ⟨trivial, rfl⟩, rfl⟩, fun e he => by simp at he⟩, rfl, by omega,
-          by rw [e3.2.1, e2.2.1, e1.2.1]⟩
+/-- `apiOut` changes nothing but the out-value of a successful `remove` -/
+theorem apiOut_spec (op : OrdSet.Op) (o : Out) :
+    (OrdSet.apiOut op o).st = o.st ∧ (OrdSet.apiOut op o).log = o.log ∧
+    (OrdSet.isRemove op = false → OrdSet.apiOut op o = o) := by
+  unfold OrdSet.apiOut; cases OrdSet.isRemove op <;> simp
+
+/-- the set constructor: three blocks (set header, table header, sentinel) on one triple, all
+released again when any of the requests is refused -/
+theorem set_new_inv (tr : Triple) (m0 : Mem) :
+    (∀ s m1, TreeSet.newT tr m0 = (.ok, some s, m1) →
+        s.Inv cmp ∧ s.t.abs = [] ∧ s.triple = tr ∧ TreeTable.liveOf m1 tr = TreeTable.liveOf m0 tr + 3 ∧
+        m1.fault = m0.fault ∧ TreeSet.Owns s m1) ∧
+    ((TreeSet.newT tr m0).1 = .ok ∨ (TreeSet.newT tr m0).1 = .errAlloc) ∧
+    ((TreeSet.newT tr m0).1 = .errAlloc → (TreeSet.newT tr m0).2.1 = none ∧
+        TreeTable.liveOf (TreeSet.newT tr m0).2.2 tr = TreeTable.liveOf m0 tr ∧
+        (TreeSet.newT tr m0).2.2.fault = m0.fault) :=
+  TreeSet.newT_spec tr m0
 
 /-! ## The comparators of the harness are total orders -/
 open CC.Driver.TreeTableD (cmpOf) in
@@ -326,9 +319,23 @@ open CC.Driver.TreeTableD (cmpOf) in
 /-- a three-level tree with red and black nodes satisfies the invariant under the non-numeric order -/
 example :
     (TreeTable.mk (Tree.node .black (Tree.node .black .nil 200 1 (Tree.node .red .nil 101 2 .nil)) 3 3
-        (Tree.node .black (Tree.node .red .nil 104 4 .nil) 5 5 .nil)) 5).Inv (cmpOf 2) ∧
+        (Tree.node .black (Tree.node .red .nil 104 4 .nil) 5 5 .nil)) 5 .conf).Inv (cmpOf 2) ∧
     (TreeTable.mk (Tree.node .black (Tree.node .black .nil 200 1 (Tree.node .red .nil 101 2 .nil)) 3 3
-        (Tree.node .black (Tree.node .red .nil 104 4 .nil) 5 5 .nil)) 5).abs =
+        (Tree.node .black (Tree.node .red .nil 104 4 .nil) 5 5 .nil)) 5 .conf).abs =
       [(200, 1), (101, 2), (3, 3), (104, 4), (5, 5)] := by decide
+
+open CC.Driver.TreeTableD (cmpOf) in
+/-- a history from the constructor, with a refused and a repeated `add`, a removal and lookups: the
+hypotheses of `new_history_refines` are satisfiable and the run is what one expects -/
+example :
+    (match TreeTable.newT .conf {} with
+     | (.ok, some t, m) =>
+       let r := t.run (cmpOf 1) [(.add 2 20, []), (.add 1 10, [true]), (.add 1 10, []), (.add 3 30, []),
+         (.remove 2, []), (.get 2, []), (.firstKey, []), (.greaterThan 3, []), (.removeLast, [])] m
+       (r.1.map (fun o => (o.st, o.val)), r.2.2.1.abs, r.2.2.2.live, decide (r.2.2.1.Inv (cmpOf 1)))
+     | _ => ([], [], 0, false)) =
+    ([(some .ok, none), (some .errAlloc, none), (some .ok, none), (some .ok, none), (some .ok, some 20),
+      (some .errKeyNotFound, none), (some .ok, some 3), (some .ok, some 1), (some .ok, some 10)],
+     [(3, 30)], 3, true) := by decide
 
 end CC.Properties.C03
